@@ -1,6 +1,6 @@
 """Contracts for src/dhkex/ecdh_nistp.rs (macro nistp_dhkex!: P-256, P-384, P-521)."""
 from contracts.c_lib import from_bytes_clauses
-from contracts.c_dhkex import SK_TO_PK, DERIVE
+from contracts.c_dhkex import SK_TO_PK, DERIVE, DH
 
 M = [r'macro_rules! nistp_dhkex\b', r'pub\(crate\) mod \$curve\b']
 C = 'curve_crate::Nist$CURVE'
@@ -22,7 +22,7 @@ def apply(F):
     D = M + [r'impl Deserializable for PrivateKey\b']
     # SecretKey::from_bytes takes &FieldBytes<C> (a projection of elliptic_curve::Curve, which cannot be
     # declared to Verus): contract assumed here, glue + range check discharged by Kani per curve
-    F.contract(D, r'fn from_bytes\b', ret='r', attrs=['#[verifier::external_body]'], discharged_by='kani:nist_sk_from_bytes_*')
+    F.contract(D, r'fn from_bytes\b', ret='r', attrs=['#[verifier::external_body]'], discharged_by='kani:nist_sk_from_bytes_*', clauses=from_bytes_clauses('tnum::<Self::OutputSize>()') + ',\n')
     F.insert_in(M, D[-1], '                // ghost: RFC 9180 §7.1.2: private keys are scalars in [1, n-1]\n                open spec fn de_valid(b: Bytes) -> bool { scalar_ok::<CurveTy>(b) }')
     F.wrap(M, D[-1])
     X = M + [r'impl DhKeyExchange for \$dh_name\b']
@@ -39,8 +39,8 @@ def apply(F):
                 }
 ''')
     F.contract(X, r'fn sk_to_pk\b', ret='r', clauses=SK_TO_PK + ',\n')
-    F.contract(X, r'fn dh\b', ret='r', attrs=['#[verifier::external_body]'], discharged_by='TRUSTED (one-line delegation to elliptic_curve::ecdh::diffie_hellman; its impl-Borrow signature is outside Verus)')
-    F.contract(X, r'fn derive_keypair<Kdf: KdfTrait>', ret='r', attrs=['#[verifier::external_body]'], discharged_by='OPEN')
+    F.contract(X, r'fn dh\b', ret='r', attrs=['#[verifier::external_body]'], discharged_by='TRUSTED (one-line delegation to elliptic_curve::ecdh::diffie_hellman; its impl-Borrow signature is outside Verus)', clauses=DH + ',\n')
+    F.contract(X, r'fn derive_keypair<Kdf: KdfTrait>', ret='r', attrs=['#[verifier::external_body]'], discharged_by='OPEN (NIST candidate loop not yet under contract)', clauses=DERIVE + ',\n')
     F.wrap(M, r'pub struct \$dh_name\b')
     F.wrap(M, X[-1])
     F.append('''
